@@ -25,7 +25,8 @@ RULE = (
     "Hypothesis: (payload bytes [arbitrary ≤4 KiB | repeated block up to 4 MiB | pseudo-incompressible up to 256 KiB], "
     "codec ∈ {zstd,gzip,identity}, level over the codec's full valid range or default, frame producer ∈ "
     "{repo compress, library one-shot, library streaming (size-less), pyarrow CompressedOutputStream}, "
-    "cap ∈ {none,0,len-1,len,len+1,2^30}). Non-trivial = len(payload)>0 and cap ∈ {len-1,len,len+1}; "
+    "cap ∈ {none,0,len-1,len,len+1,2^30}); family ratio: 1-4 MiB repeats of a 1-3 byte block (expansion ≥1000:1) with the cap at "
+    "len-1/len or at k·len(frame), k ∈ {100,1000,1024,1032,4096,20000}. Non-trivial = len(payload)>0 and cap ∈ {len-1,len,len+1,k·frame}; "
     "distinct by SHA-1 of the canonical JSON case."
 )
 ASSUMPTIONS = [
@@ -69,6 +70,22 @@ payloads = st.one_of(
         st.binary(min_size=0, max_size=16),
         st.one_of(st.integers(0, 4096), st.sampled_from([65535, 65536, 65537, 131072, 131073, 262144])),
     ),
+)
+
+# highly compressible payloads of 1-4 MiB with the cap tied to the *frame* length: a decoder that reasons about a
+# maximum expansion ratio instead of counting output bytes is only wrong in the band ratio*len(frame) <= cap < len(x)
+ratio_cases = st.builds(
+    lambda b, size, cut, codec, level, producer, cap: {
+        "payload": {"kind": "repeat", "block": b, "times": size // len(b) + 1, "size": size - cut},
+        "codec": codec, "level": level, "producer": producer, "cap": cap,
+    },
+    st.binary(min_size=1, max_size=3),
+    st.sampled_from([1 << 20, 1258291, 1 << 21, 3 << 20, 1 << 22]),
+    st.integers(0, 3),
+    st.sampled_from(["zstd", "gzip"]),
+    st.sampled_from([None, 1, 3, 6, 9]),
+    st.sampled_from(["repo", "oneshot", "streaming", "arrow"]),
+    st.sampled_from(["len-1", "len-1", "len", "frame*100", "frame*1000", "frame*1024", "frame*1032", "frame*4096", "frame*20000"]),
 )
 
 cases = st.builds(
@@ -130,12 +147,6 @@ def run_case(case: dict) -> Outcome:
     x = _payload(case["payload"])
     n = len(x)
     cap_name = case["cap"]
-    cap = {"none": None, "0": 0, "len-1": n - 1, "len": n, "len+1": n + 1, "big": 2**30}[cap_name]
-    if cap is not None and cap < 0:
-        out.skipped = True
-        return out
-    out.nontrivial = n > 0 and cap_name in ("len-1", "len", "len+1")
-    out.label(f"codec={codec}", f"producer={producer}", f"cap={cap_name}", "big" if n > 65536 else "small")
     enc = _CODECS[codec]
     try:
         frame = _frame(codec, producer, level, x)
@@ -144,6 +155,17 @@ def run_case(case: dict) -> Outcome:
             out.fail(f"compress_raises/{codec}/{type(e).__name__}", f"compress({codec}, level={level}) raised {e!r}")
             return out
         raise
+    if cap_name.startswith("frame*"):
+        cap = len(frame) * int(cap_name[6:])
+    else:
+        cap = {"none": None, "0": 0, "len-1": n - 1, "len": n, "len+1": n + 1, "big": 2**30}[cap_name]
+    if cap is not None and cap < 0:
+        out.skipped = True
+        return out
+    out.nontrivial = n > 0 and (cap_name in ("len-1", "len", "len+1") or cap_name.startswith("frame*"))
+    out.label(f"codec={codec}", f"producer={producer}", f"cap={cap_name}", "big" if n > 65536 else "small")
+    if cap_name.startswith("frame*"):
+        out.label("ratio_band=" + ("cap<len" if cap < n else "cap>=len"), f"ratio>={min(n // max(1, len(frame)) // 250 * 250, 2000)}")
     out.note = {"len": n, "frame_len": len(frame), "cap": cap}
     try:
         y = _codec.decompress(enc, frame, max_output_size=cap)
@@ -168,3 +190,4 @@ def run_case(case: dict) -> Outcome:
 
 def main(chk: Check) -> None:
     chk.explore("codec", cases, run_case, quick=3000, thorough=60000)
+    chk.explore("ratio", ratio_cases, run_case, quick=250, thorough=6000)
